@@ -8,7 +8,21 @@ use std::sync::atomic::{AtomicBool, AtomicU64, AtomicUsize, Ordering};
 use std::sync::{Arc, Mutex, OnceLock};
 use std::time::{Duration, Instant};
 
-pub const VERIF_DIR: &str = "/verif";
+/// Root of the verification tree (`/verif`; the seeded-change runner points a scratch copy of the
+/// tree at a scratch copy of the repository through VERIF_ROOT).
+pub fn verif_dir() -> String {
+    std::env::var("VERIF_ROOT").ok().filter(|s| !s.is_empty()).unwrap_or_else(|| "/verif".to_string())
+}
+
+/// Build/sanitizer mode of this binary: "rel" (default; writes evidence/<ID>.json) or the name of
+/// a sanitizer pass ("chk" = release + overflow checks + debug assertions, "asan", "tsan", "miri"),
+/// whose summary goes to target/san/<ID>.<mode>.json and is merged by the rel run.
+pub fn mode() -> String {
+    std::env::var("VERIF_MODE").ok().filter(|s| !s.is_empty()).unwrap_or_else(|| "rel".to_string())
+}
+pub fn san_dir() -> String {
+    format!("{}/target/san", verif_dir())
+}
 
 #[derive(Clone, Copy, Debug, PartialEq, Eq)]
 pub enum Tier {
@@ -313,7 +327,7 @@ pub struct Known {
 
 impl Known {
     pub fn load() -> Self {
-        let path = format!("{VERIF_DIR}/known_findings.txt");
+        let path = format!("{}/known_findings.txt", verif_dir());
         let mut k = Known::default();
         if let Ok(text) = std::fs::read_to_string(path) {
             for line in text.lines() {
@@ -357,7 +371,7 @@ pub fn finish(ctx: &Ctx, mut out: Outcome, fin: Finish<'_>) -> i32 {
         let sk = out.skipped;
         out.add("cases_skipped_by_watchdog", sk);
     }
-    std::fs::create_dir_all(format!("{VERIF_DIR}/evidence/replay")).ok();
+    std::fs::create_dir_all(format!("{}/evidence/replay", verif_dir())).ok();
 
     // helper-thread panics that no monitor consumed are violations of "never panics"
     let stray = take_helper_panics();
@@ -416,6 +430,32 @@ pub fn finish(ctx: &Ctx, mut out: Outcome, fin: Finish<'_>) -> i32 {
             coverage[k] = v.clone();
         }
     }
+    let mode = mode();
+    // sanitizer passes that ran before this (rel) run: merge their summaries and verdicts
+    let mut san_code = 0;
+    if mode == "rel" && ctx.only.is_none() {
+        let mut passes: Vec<Value> = vec![];
+        if let Ok(rd) = std::fs::read_dir(san_dir()) {
+            let mut files: Vec<_> = rd.flatten().map(|e| e.path()).filter(|p| p.file_name().and_then(|n| n.to_str()).is_some_and(|n| n.starts_with(&format!("{}.", ctx.prop)) && n.ends_with(".json"))).collect();
+            files.sort();
+            for f in files {
+                if let Ok(text) = std::fs::read_to_string(&f) {
+                    if let Ok(v) = serde_json::from_str::<Value>(&text) {
+                        let st = v["status"].as_str().unwrap_or("?").to_string();
+                        if st == "violated" {
+                            san_code = san_code.max(1);
+                        } else if st != "held" && san_code == 0 {
+                            san_code = 2;
+                        }
+                        passes.push(v);
+                    }
+                }
+            }
+        }
+        if !passes.is_empty() {
+            coverage["sanitizer_passes"] = json!(passes);
+        }
+    }
     let ev = json!({
         "property_id": ctx.prop,
         "tier": ctx.tier.name(),
@@ -426,8 +466,8 @@ pub fn finish(ctx: &Ctx, mut out: Outcome, fin: Finish<'_>) -> i32 {
         "wall_s": (wall * 1000.0).round() / 1000.0,
         "violations": n_fresh_total as i64,
     });
-    if ctx.only.is_none() {
-        let path = format!("{VERIF_DIR}/evidence/{}.json", ctx.prop);
+    if ctx.only.is_none() && mode == "rel" {
+        let path = format!("{}/evidence/{}.json", verif_dir(), ctx.prop);
         let tmp = format!("{path}.tmp");
         std::fs::write(&tmp, serde_json::to_string_pretty(&ev).unwrap()).expect("write evidence");
         std::fs::rename(&tmp, &path).expect("rename evidence");
@@ -460,13 +500,16 @@ pub fn finish(ctx: &Ctx, mut out: Outcome, fin: Finish<'_>) -> i32 {
     let mut code = 0;
     for (i, v) in fresh.iter().enumerate() {
         let path = format!(
-            "{VERIF_DIR}/evidence/replay/{}-{}-{}.json",
+            "{}/evidence/replay/{}-{}{}-{}.json",
+            verif_dir(),
             ctx.prop,
             ctx.seed,
+            if mode == "rel" { String::new() } else { format!("-{mode}") },
             i
         );
         let rp = json!({
             "property": ctx.prop,
+            "mode": mode,
             "tier": ctx.tier.name(),
             "seed": ctx.seed,
             "sig": v.sig,
@@ -489,8 +532,31 @@ pub fn finish(ctx: &Ctx, mut out: Outcome, fin: Finish<'_>) -> i32 {
         }
         code = 2;
     }
+    if mode != "rel" && ctx.only.is_none() {
+        // summary of this sanitizer pass for the rel run to merge
+        std::fs::create_dir_all(san_dir()).ok();
+        let summary = json!({
+            "pass": mode,
+            "status": match code { 0 => "held", 1 => "violated", _ => "inconclusive" },
+            "tier": ctx.tier.name(),
+            "seed": ctx.seed,
+            "evaluations": out.evaluations,
+            "distinct_nontrivial": out.distinct.len() as u64,
+            "violations": fresh.iter().take(10).map(|v| json!({"sig": v.sig, "detail": v.detail.chars().take(300).collect::<String>()})).collect::<Vec<_>>(),
+            "known_findings_reproduced": known_hits.keys().collect::<Vec<_>>(),
+            "inconclusive": inconclusive,
+            "counters": out.stats,
+            "wall_s": (wall * 1000.0).round() / 1000.0,
+        });
+        let path = format!("{}/{}.{}.json", san_dir(), ctx.prop, mode);
+        std::fs::write(&path, serde_json::to_string_pretty(&summary).unwrap()).ok();
+    }
+    if code == 0 && san_code != 0 {
+        println!("[{}] a sanitizer pass reported {} (see coverage.sanitizer_passes and its output above)", ctx.prop, if san_code == 1 { "a violation" } else { "an inconclusive result" });
+        code = san_code;
+    }
     if code == 0 {
-        println!("[{}] held on everything explored", ctx.prop);
+        println!("[{}] held on everything explored{}", ctx.prop, if mode == "rel" { String::new() } else { format!(" (pass {mode})") });
     }
     code
 }
